@@ -245,20 +245,27 @@ func init() {
 				}
 			}
 		}
+		// cancelled runs: condition error at each stage, and an external Cancel at any point (a sample of graphs)
+		for _, e := range []int64{0, 1, 9, 36, 33} {
+			for which := int64(0); which < 3; which++ {
+				js = append(js, &Job{Pkg: pkgScheduler, Func: "VerifSchedCancel", Args: []int64{3, e, 1, which, 1}, Timeout: 20 * time.Minute, MaxSteps: 2000000000})
+			}
+			js = append(js, &Job{Pkg: pkgScheduler, Func: "VerifSchedCancel", Args: []int64{3, e, 2, 0, 1}, Timeout: 20 * time.Minute, MaxSteps: 2000000000})
+		}
 		js = append(js, &Job{Pkg: pkgScheduler, Func: "VerifSchedWorker", Args: []int64{0}, Timeout: 5 * time.Minute})
 		js = append(js, &Job{Pkg: pkgScheduler, Func: "VerifSchedWorker", Args: []int64{1}, Timeout: 5 * time.Minute})
 		return js
 	}
 	schedBounds := map[string]interface{}{
-		"quick":    "every directed graph on 3 stages (64 edge sets over ordered pairs; the 25 acyclic ones are analysed, declaration order = visiting order so all orders are covered) and on 2 stages; per stage symbolic allow_failure, outcome, condition absent/true/false. (a) interference mode: ONE pass / the exit path of the real Schedule from an ARBITRARY state satisfying the invariant, worker interference (rely relation) at every atomic operation - covers runs of any length and every fine-grained interleaving; (b) the real worker closure for a task stage and a nested-pipeline stage against the rely relation; (c) thread mode: whole Schedule runs from the initial state, interleavings enumerated with preemption bound 1; (d) thread mode: an outer pipeline a->b, p(a) whose stage p is a nested pipeline over every 3-stage graph REUSING the names a, b, c, symbolic outcomes",
+		"quick":    "every directed graph on 3 stages (64 edge sets over ordered pairs; the 25 acyclic ones are analysed, declaration order = visiting order so all orders are covered) and on 2 stages; per stage symbolic allow_failure, outcome, condition absent/true/false. (a) interference mode: ONE pass / the exit path of the real Schedule from an ARBITRARY state satisfying the invariant, worker interference (rely relation) at every atomic operation - covers runs of any length and every fine-grained interleaving; (b) the real worker closure for a task stage and a nested-pipeline stage against the rely relation; (c) thread mode: whole Schedule runs from the initial state, interleavings enumerated with preemption bound 1; (d) thread mode: an outer pipeline a->b, p(a) whose stage p is a nested pipeline over every 3-stage graph REUSING the names a, b, c, symbolic outcomes; (e) thread mode: cancelled runs on 5 graphs - a stage condition that cannot be evaluated (each stage), and Scheduler.Cancel from another thread at every visible point (preemption bound 1)",
 		"thorough": "same graphs; thread-mode cross-check with preemption bound 2",
 	}
-	schedOutside := []string{"more than 3 stages (a 4-stage graph did not finish within 20 minutes per graph in interference mode, nor in thread mode: not registered)", "nesting deeper than one level (the nested Schedule call is the same function; the worker harness checks that its result is propagated)", "a stage condition that cannot be evaluated, and external Cancel (cancellation: see C12 / C03 thread-mode harness)", "wall-clock overlap: the 50 ms pause is the cut point / a deschedule", "the composition step obligations => property is a hand argument (DESIGN C01-C04); the thread-mode runs are its end-to-end cross-check"}
+	schedOutside := []string{"more than 3 stages (a 4-stage graph did not finish within 20 minutes per graph in interference mode, nor in thread mode: not registered)", "nesting deeper than one level (the nested Schedule call is the same function; the worker harness checks that its result is propagated)", "cancellation is covered with a stub runner on 5 of the 25 graphs (the real TaskRunner side of cancellation is C12)", "wall-clock overlap: the 50 ms pause is the cut point / a deschedule", "the composition step obligations => property is a hand argument (DESIGN C01-C04); the thread-mode runs are its end-to-end cross-check"}
 	schedAssume := []string{"rely relation iStep/iMayStop for workers (validated against the real goroutine body by VerifSchedWorker)", "checkStageCondition stubbed: a stage's condition has a fixed truth value", "runner.Runner stubbed; tasks terminate", "sync/atomic, WaitGroup, go statements: engine intrinsics; sequential consistency at atomic operations", "map iteration order = insertion (declaration) order; all orders covered by enumerating edge sets over ordered pairs"}
 	schedReplay := map[string]*ReplaySpec{"*": {PkgDir: "pkg/scheduler", File: "C01_replay_test.go", Test: "TestVerifReplaySched"},
 		"VerifSchedNested": {PkgDir: "pkg/scheduler", File: "C01_replay_test.go", Test: "TestVerifReplaySchedNested"}}
 	for _, id := range []string{"C01", "C02", "C03", "C04"} {
-		covers := []string{"C01.nested-run-returns", "C01.acyclic-graph", "C01.launch", "C03.pass-reaches-the-pause", "C03.schedule-returns", "C01.worker-checked", "C03.whole-run-returns", "C04.all-eligible-started-in-one-pass"}
+		covers := []string{"C03.cancelled-run-returns", "C03.condition-error-cancels-the-run", "C01.nested-run-returns", "C01.acyclic-graph", "C01.launch", "C03.pass-reaches-the-pause", "C03.schedule-returns", "C01.worker-checked", "C03.whole-run-returns", "C04.all-eligible-started-in-one-pass"}
 		register(&PropSpec{ID: id, Jobs: schedJobs, Harness: []string{"C01"}, AttributeByReplay: true, Covers: covers, Bounds: schedBounds, Outside: schedOutside, Assumptions: schedAssume, Replay: schedReplay})
 	}
 
